@@ -555,12 +555,17 @@ def run(chk, replay=None):
             data, d, h = gen_unambiguous(rng)
             ln = "sniff " + hx(data)
             cases.append(("sniff", ln, ln, "ok %d %d" % (d, h), {}))
-        for _ in range(120 if quick else 1500):       # sniffing the general tables: model vs code only
+        # sniffing general tables: model vs code only.  At most 17 data rows: the number of lines the
+        # sniffer inspects (20) is a parameter of the model that no theorem depends on; on inputs that
+        # fit in the window the tie does not depend on it either.
+        for _ in range(120 if quick else 1500):
             T = gen_table(rng, chk.tier)
+            T["rows"] = T["rows"][:17]
             ln = "sniff " + hx(render_csv(rng, T))
             cases.append(("sniff", ln, ln, None, {}))
             if rng.chance(0.5):
                 T = gen_table(rng, chk.tier)
+                T["rows"] = T["rows"][:17]
                 ln = csv_line(T, render_csv(rng, T), sniff=True)
                 cases.append(("csv", ln, ln, None, {"sniffed": True}))
         for _ in range(2500 if quick else 40000):
